@@ -48,6 +48,8 @@ Inductive tin :=
 | IIdentify                (* authentication completes *)
 | IRequest                 (* any non-PONG frame dispatched in the authenticated state *)
 | IPongOk | IPongBad       (* PONG carrying the id of the outstanding PING / another id *)
+| IRefused                 (* a pre-authentication frame answered without a phase change: IDENTIFY refused with a
+                              recoverable error (USERNAME_IN_USE), AUTH answered with a failure or a challenge *)
 | IObserve.                (* nothing happens; just look at the clock *)
 
 Definition fuel_for (c : tcfg) (span : N) : nat := N.to_nat (span / N.max (hb_min c) 1) + 4.
